@@ -166,6 +166,12 @@ static void run_script(char* text) {
                 printf("%zu:", l1); dump_hex(p1, l1);
                 printf("%s%s%s", p1[l1] == 0 ? "" : "!NOTERM", p1 == p2 ? "" : "!PTRCHANGED", l1 == l2 ? "" : "!LENCHANGED");
             }
+        } else if (c == 'N') {     /* N<ref> : edn_number_as_double of a big decimal (bit pattern) */
+            edn_value_t* v = ref(a, NULL);
+            double dd = 0;
+            if (!v || edn_type(v) != EDN_TYPE_BIGDEC) printf("na");
+            else if (!edn_number_as_double(v, &dd)) printf("false");
+            else { uint64_t u; memcpy(&u, &dd, 8); if (dd != dd) u = 0x7FF8000000000000ULL; printf("%016" PRIx64, u); }
         } else if (c == 'Q') {     /* Q<ref>,<hex> : edn_string_equals */
             const char* r2;
             edn_value_t* v = ref(a, &r2);
